@@ -19,6 +19,7 @@ import GeoProofs.Lemmas.C02QHoles
 import GeoProofs.Lemmas.C02QPerturb
 import GeoProofs.Lemmas.WINDHoles
 import GeoProofs.Lemmas.C02XTable
+import GeoProofs.Lemmas.C02XAreal
 
 namespace Geo.Proofs.C02
 open Geo
@@ -1101,6 +1102,57 @@ theorem containsM_multiPolygon_via_relate (ps : List Poly) (b : Geom)
 example : containsM (.multiPolygon [⟨[⟨0, 0⟩, ⟨4, 0⟩, ⟨4, 4⟩, ⟨0, 4⟩, ⟨0, 0⟩], []⟩]) (.line ⟨1, 1⟩ ⟨2, 2⟩) =
     Gen.isContains (relateSpec (.multiPolygon [⟨[⟨0, 0⟩, ⟨4, 0⟩, ⟨4, 4⟩, ⟨0, 4⟩, ⟨0, 0⟩], []⟩]) (.line ⟨1, 1⟩ ⟨2, 2⟩)) :=
   containsM_multiPolygon_via_relate _ _ rfl
+
+/-- [T] **what `Polygon: Intersects<Polygon>` computes, exactly** (bounding-box early returns of the body and of its
+`LineString × Polygon` calls included): some ring point of `q` lies in `p`, or some shell point of `p` lies in `q`.
+Operands: polygons of the domain, or `to_polygon` of a Rect / Triangle (`PieceFacts`, see `pieceFacts_polygon`,
+`pieceFacts_rectPoly`, `pieceFacts_triPoly`). -/
+theorem polyPoly_iff_boundary (p q : Poly) (pfp : Geo.Proofs.C02X.PieceFacts (.polygon p))
+    (pfq : Geo.Proofs.C02X.PieceFacts (.polygon q)) :
+    polyPoly p q = true ↔
+      (∃ r ∈ q.rings, ∃ s ∈ segs r, ∃ x, Geo.Proofs.Kernel.SegMem x s.1 s.2 ∧ locate (.polygon p) x ≠ .outside) ∨
+      (∃ s ∈ segs p.ext, ∃ x, Geo.Proofs.Kernel.SegMem x s.1 s.2 ∧ locate (.polygon q) x ≠ .outside) :=
+  Geo.Proofs.C02X.polyPoly_iff p q pfp pfq
+
+example : polyPoly (rectPoly ⟨0, 0⟩ ⟨4, 4⟩) (triPoly ⟨1, 1⟩ ⟨2, 1⟩ ⟨1, 2⟩) = true :=
+  (polyPoly_iff_boundary _ _ (Geo.Proofs.C02X.pieceFacts_rectPoly _ _) (Geo.Proofs.C02X.pieceFacts_triPoly _ _ _)).mpr
+    (Or.inl ⟨[⟨1, 1⟩, ⟨2, 1⟩, ⟨1, 2⟩, ⟨1, 1⟩], by simp [triPoly, Poly.rings], (⟨1, 1⟩, ⟨2, 1⟩), by simp [segs],
+      ⟨1, 1⟩, ⟨0, by norm_num, by norm_num, by norm_num, by norm_num⟩, by decide +kernel⟩)
+
+/-- [T] **no false positive on the nine pairs of Polygon / Rect / Triangle**: `intersects(a, b) = true` implies the mask
+"not `FF*FF****`" on the specification (every point the `Polygon × Polygon` body finds is a common point). -/
+theorem intersectsM_areal_sound (a b : Geom) (ha : inDomain a = true) (hb : inDomain b = true)
+    (pa : Geo.Proofs.C02X.arealPrim a = true) (pb : Geo.Proofs.C02X.arealPrim b = true)
+    (h : intersectsM a b = true) : Gen.isIntersects (relateSpec a b) = true :=
+  Geo.Proofs.C02X.intersectsM_arealPrim_sound a b ha hb pa pb h
+
+example : Gen.isIntersects (relateSpec (.triangle ⟨0, 0⟩ ⟨4, 0⟩ ⟨0, 4⟩) (.rect ⟨1, 1⟩ ⟨5, 5⟩)) = true :=
+  intersectsM_areal_sound _ _ (by decide +kernel) (by decide +kernel) rfl rfl (by decide +kernel)
+
+/-- [T] Polygon × Polygon, both of the domain: `intersects` is the mask on the specification, given the one step that is
+not proved here. Full statement (no `hgap`): needs "two valid polygons with a common point have a ring point of one in the
+other or a shell point of the other in the first" — if the boundaries do not meet, one polygon lies inside the other
+(connectedness of a valid polygon). [C] decides these pairs meanwhile. -/
+theorem intersectsM_polygon_polygon_partial (p q : Poly) (hp : inDomain (.polygon p) = true)
+    (hq : inDomain (.polygon q) = true)
+    (hgap : (∃ x, locate (.polygon q) x ≠ .outside ∧ locate (.polygon p) x ≠ .outside) →
+      Geo.Proofs.C02X.BoundaryMeets q p) :
+    intersectsM (.polygon p) (.polygon q) = Gen.isIntersects (relateSpec (.polygon p) (.polygon q)) := by
+  have e : intersectsM (.polygon p) (.polygon q) = polyPoly q p := by
+    simp only [intersectsM, vsPiece, isxFlat, polyX]
+  rw [e, Bool.eq_iff_iff, Geo.Proofs.C02X.polyPoly_common_partial q p (Geo.Proofs.C02X.pieceFacts_polygon q hq)
+    (Geo.Proofs.C02X.pieceFacts_polygon p hp) hgap]
+  have hs := isIntersects_iff_common_point_dom (.polygon p) (.polygon q) hp hq
+  rw [hs]
+  exact ⟨Geo.Proofs.C02X.Common.symm, Geo.Proofs.C02X.Common.symm⟩
+
+example : intersectsM (.polygon ⟨[⟨0, 0⟩, ⟨4, 0⟩, ⟨4, 4⟩, ⟨0, 4⟩, ⟨0, 0⟩], []⟩)
+      (.polygon ⟨[⟨2, 2⟩, ⟨6, 2⟩, ⟨6, 6⟩, ⟨2, 2⟩], []⟩) =
+    Gen.isIntersects (relateSpec (.polygon ⟨[⟨0, 0⟩, ⟨4, 0⟩, ⟨4, 4⟩, ⟨0, 4⟩, ⟨0, 0⟩], []⟩)
+      (.polygon ⟨[⟨2, 2⟩, ⟨6, 2⟩, ⟨6, 6⟩, ⟨2, 2⟩], []⟩)) :=
+  intersectsM_polygon_polygon_partial _ _ (by decide +kernel) (by decide +kernel)
+    (fun _ => Or.inl ⟨[⟨0, 0⟩, ⟨4, 0⟩, ⟨4, 4⟩, ⟨0, 4⟩, ⟨0, 0⟩], by simp [Poly.rings], (⟨4, 0⟩, ⟨4, 4⟩), by simp [segs],
+      ⟨4, 2⟩, ⟨1 / 2, by norm_num, by norm_num, by norm_num, by norm_num⟩, by decide +kernel⟩)
 
 /-! ### TRAN: the `CoordinatePosition` accumulator, clause by clause, is the term read off the Rust bodies -/
 
